@@ -709,9 +709,9 @@ func (s *Session) SetUnmarshaller(unmarshaller Unmarshaller) {
 }
 
 func (s *Session) Stop() (err error) {
-	defer func() {
-		s.eventHandler.Clean()
-	}()
+	// Handlers registered so far are dropped before the logout callback below
+	// is registered, so that the peer's answer still reaches it.
+	s.eventHandler.Clean()
 
 	err = s.Logout()
 	if err != nil {
